@@ -489,3 +489,30 @@ Definition c18_class (ec : ecase) : option N :=
   else if (a =? 1) || (b =? 1) then (if has_empty_lang (ec_app ec) (ec_cfg ec) then Some 1 else Some 0)
   else None.
 Definition engine_violations_c18 (cs : list ecase) : list (N * N) := classify c18_class 0 cs.
+
+(* ---- C02 (engine level): pages are walked from index 0, one step at a time -------------------------- *)
+(* observed: whenever the navigation stack changed during a request the page index is 0 again;
+   without a change of stack the index moves by at most one page per lateral move executed *)
+Fixpoint count_lateral (es : list ev) : N :=
+  match es with
+  | [] => 0
+  | EvMove _ t _ :: r => (if bytes_eqb t t_next || bytes_eqb t t_prev then 1 else 0) + count_lateral r
+  | _ :: r => count_lateral r
+  end.
+Fixpoint c02e_steps (prev : option osnap) (steps : list (bytes * eobs)) (evs : list (list ev)) : bool :=
+  match steps, evs with
+  | (i, o) :: steps', es :: evs' =>
+    (match prev, eo_snap o with
+     | Some a, Some b =>
+       if list_eqb bytes_eqb (os_path a) (os_path b)
+       then (* same stack: |delta idx| bounded by the lateral moves executed, or the node was re-entered *)
+            (os_idx b =? 0) || ((os_idx b <=? os_idx a + count_lateral es) && (os_idx a <=? os_idx b + count_lateral es))
+       else (os_idx b =? 0)
+     | None, Some b => (os_idx b =? 0) || (0 <? count_lateral es)
+     | _, _ => true
+     end) && c02e_steps (eo_snap o) steps' evs'
+  | _, _ => true
+  end.
+Definition c02e_class (ec : ecase) : option N :=
+  if c02e_steps None (ec_long ec) (events_long ec) && c02e_steps None (ec_pers ec) (events_pers ec) then None else Some 0.
+Definition engine_violations_c02 (cs : list ecase) : list (N * N) := classify c02e_class 0 cs.
